@@ -170,3 +170,13 @@ where
     }
     Ok(())
 }
+
+/// digits of `i` in base `base`, least significant first, exactly `len` of them
+pub fn digits(mut i: u64, base: u64, len: usize) -> Vec<usize> {
+    let mut v = Vec::with_capacity(len);
+    for _ in 0..len {
+        v.push((i % base) as usize);
+        i /= base;
+    }
+    v
+}
